@@ -9280,6 +9280,75 @@ func smallWave30(c *core.Ctx, b *ob) {
 			}
 		}
 	}
+	// (y) the text inside the quotes of a `,string` integer is the number and nothing else: what the
+	// integer decoder leaves over is tested for emptiness as it is — white space inside the quotes
+	// ("12 ") is a type error in encoding/json
+	{
+		props := []string{"C02"}
+		key := "string-option-int:leftover-tested-raw"
+		fn := c.Lookup("json.(decoder).decodeFromStringToInt")
+		if fn == nil {
+			b.addP(props, core.Undecided, key, "-", "json.(decoder).decodeFromStringToInt not found")
+		} else {
+			n, bad := 0, ""
+			for _, blk := range fn.Blocks {
+				for _, in := range blk.Instrs {
+					bo, ok := in.(*ssa.BinOp)
+					if !ok || (bo.Op != token.NEQ && bo.Op != token.EQL) {
+						continue
+					}
+					la, isLen := lenArg(bo.X)
+					if k, isK := constInt(bo.Y); !isLen || !isK || k != 0 {
+						continue
+					}
+					n++
+					if call, isC := la.(*ssa.Call); isC {
+						if g := staticCallee(call.Common()); g != nil && strings.HasPrefix(g.Name(), "skipSpaces") {
+							bad = c.InstrPos(bo)
+						}
+					}
+				}
+			}
+			switch {
+			case bad != "":
+				b.addP(props, core.Violation, key, bad, "decodeFromStringToInt skips white space before testing what the integer decoder left of the quoted text: {\"a\":\"12 \"} is accepted where encoding/json returns an UnmarshalTypeError")
+			case n == 0:
+				b.addP(props, core.Undecided, key, c.FuncPos(fn), "no emptiness test found in decodeFromStringToInt")
+			default:
+				b.addP(props, core.Discharged, key, c.FuncPos(fn), "no emptiness test is made on a skipSpaces result")
+			}
+		}
+	}
+	// (z) the length-delimited scalar decoders of proto get their payload from decodeVarlen, which
+	// checks the announced length against the bytes available: they never slice the input themselves
+	// (a top-level string target is handed the raw input, not a window cut to size)
+	{
+		props := []string{"C07"}
+		key := "varlen-decoders:payload-from-decodeVarlen"
+		n, bad := 0, ""
+		for _, name := range []string{"proto.decodeString", "proto.decodeBytes"} {
+			fn := c.Lookup(name)
+			if fn == nil || len(fn.Params) == 0 {
+				continue
+			}
+			n++
+			for _, blk := range fn.Blocks {
+				for _, in := range blk.Instrs {
+					if sl, ok := in.(*ssa.Slice); ok && stripConv(sl.X) == ssa.Value(fn.Params[0]) {
+						bad = c.InstrPos(sl) + " (" + name + ")"
+					}
+				}
+			}
+		}
+		switch {
+		case n == 0:
+			b.addP(props, core.Undecided, key, "-", "proto.decodeString / decodeBytes not found")
+		case bad != "":
+			b.addP(props, core.Violation, key, bad, "a length-delimited decoder slices its input itself at "+bad+" instead of taking the payload from decodeVarlen: the announced length is not checked against the bytes available, so a truncated top-level string panics (slice bounds out of range) or is decoded from the spare capacity of the caller's buffer")
+		default:
+			b.addP(props, core.Discharged, key, "-", fmt.Sprintf("%d length-delimited decoders, none slices its input", n))
+		}
+	}
 	// (a) zig-zag decoding shifts the unsigned word: (v >> 1) ^ -(v & 1) with a logical shift. On a
 	// value converted to a signed type first the shift carries the sign bit along, and every value
 	// whose zig-zag form has the top bit set (|x| >= 2^30 for sint32) decodes to another number.
